@@ -82,7 +82,7 @@ PMKind == {<<m, Kind(m)>> : m \in Mans} \cup {<<"OLDM", "image">>}
 PRefs == {[r |-> r[1], s |-> r[2], match |-> B(conf.filter = {} \/ r[3] \in conf.filter)] : r \in Sh.refs}
 PAliasSet == IF conf.refTgt THEN {<<"r/" \o n, n, "r/">> : n \in AllNodes \cup {"D:" \o m : m \in Mans}} ELSE {}
 PDTags == {[t |-> d[1], on |-> d[2], to |-> d[3], fb |-> 0] : d \in Sh.dtags} \cup
-          {[t |-> FbTag(f[2]), on |-> f[2], to |-> f[1], fb |-> 1] : f \in {f \in Sh.fbs : HasFB}}
+          {[t |-> FbTag(f[2]), on |-> f[2], to |-> f[1], fb |-> 1] : f \in {f \in Sh.fbs : HasFB /\ f[2] \notin Sh.long}}
 PInit0 == [b |-> InitB, m |-> InitM, x |-> {}, t |-> InitT]
 PCur == [b |-> tb, m |-> tm, x |-> {}, t |-> tt]
 RECURSIVE Rep(_, _)
